@@ -9,6 +9,7 @@ One abstract *item* = a format string term + an argument list term. From an item
     defects of `~Nd`/`~ND`/`~NU` on negative integers, used only to classify).
 The implementation's answer must be, character for character, what the repaired model prints.
 """
+import re
 import struct
 import time
 
@@ -148,6 +149,101 @@ def show(t, prolog=False):
             return "[" + ",".join(show(x, prolog) for x in items) + "]"
         return "'.'(%s,%s)" % (show(args[0], prolog), show(args[1], prolog))
     return "'" + esc_q(f, "'") + "'(" + ",".join(show(x, prolog) for x in args) + ")"
+
+
+# ------------------------------------------------------------------ reader for the canonical syntax
+# (the harness prints a character list whose cells are partly list cells and partly a packed string
+#  as '.'('a',"bc"): answers are parsed and printed again so that equal terms have equal text)
+
+class ParseError(Exception):
+    pass
+
+
+def _quoted(s, i, q):
+    out = []
+    while True:
+        if i >= len(s):
+            raise ParseError("unterminated quote")
+        c = s[i]
+        if c == "\\":
+            d = s[i + 1]
+            if d == "x":
+                j = s.index("\\", i + 2)
+                out.append(chr(int(s[i + 2:j], 16)))
+                i = j + 1
+            else:
+                out.append(d)
+                i += 2
+        elif c == q:
+            return "".join(out), i + 1
+        else:
+            out.append(c)
+            i += 1
+
+
+def _args(s, i, close):
+    xs = []
+    while True:
+        t, i = _term(s, i)
+        xs.append(t)
+        if s[i] == ",":
+            i += 1
+        elif s[i] == close:
+            return xs, i + 1
+        else:
+            raise ParseError("expected , or %s at %d" % (close, i))
+
+
+def _term(s, i):
+    c = s[i]
+    if c == "'":
+        name, i = _quoted(s, i + 1, "'")
+        if i < len(s) and s[i] == "(":
+            xs, i = _args(s, i + 1, ")")
+            return ("str", name, xs), i
+        return ("atom", name), i
+    if c == '"':
+        cs, i = _quoted(s, i + 1, '"')
+        return STR(cs), i
+    if c == "[":
+        if s[i + 1] == "]":
+            return NIL, i + 2
+        xs, i = _args(s, i + 1, "]")
+        return L(xs), i
+    if s.startswith("r(", i):
+        j = s.index(")", i)
+        n, d = s[i + 2:j].split(",")
+        return ("rat", int(n), int(d)), j + 1
+    if s.startswith("f(", i):
+        j = s.index(")", i)
+        return ("flt", struct.unpack(">d", bytes.fromhex(s[i + 2:j]))[0]), j + 1
+    if c == "-" or c.isdigit():
+        j = i + 1
+        while j < len(s) and s[j].isdigit():
+            j += 1
+        return ("int", int(s[i:j])), j
+    if c.isalpha() or c == "_":
+        j = i + 1
+        while j < len(s) and (s[j].isalnum() or s[j] == "_"):
+            j += 1
+        return ("var", s[i:j]), j
+    raise ParseError("unexpected %r at %d" % (c, i))
+
+
+def parse_canon(s):
+    t, i = _term(s, 0)
+    if i != len(s):
+        raise ParseError("trailing text at %d" % i)
+    return t
+
+
+def normalise(s):
+    """canonical text -> canonical text with every character list printed as a string."""
+    try:
+        return show(parse_canon(s))
+    except (ParseError, ValueError, IndexError):
+        return None
+
 
 
 def term_vars(t, acc):
@@ -534,8 +630,8 @@ def item_lines(it):
     if proper and items:
         vs = term_vars(args, [])
         vns = "[" + ",".join("'%s'=%s" % (fabricated(i), v) for i, v in enumerate(vs)) + "]"
-        lines.append(qline(it["id"] + "_t", "%s(%s,%s,T)." % ("c36_textsr" if rat else "c36_texts", show(args, True), vns)))
-    lines.append(qline(it["id"] + "_r", "%s(%s,%s,R)." % ("c36_runr" if rat else "c36_run", show(fs, True), show(args, True))))
+        lines.append(qline(it["id"] + "_t", "%s(%s,%s,Tzz)." % ("c36_textsr" if rat else "c36_texts", show(args, True), vns)))
+    lines.append(qline(it["id"] + "_r", "%s(%s,%s,Rzz)." % ("c36_runr" if rat else "c36_run", show(fs, True), show(args, True))))
     return lines, (proper and bool(items))
 
 
@@ -552,8 +648,8 @@ def model_lines(it, impl):
     texts = "[]"
     if it["has_texts"]:
         r = impl.get(it["id"] + "_t", "missing")
-        if r.startswith("{T=") and r.endswith("}"):
-            texts = r[3:-1]
+        if r.startswith("{Tzz=") and r.endswith("}"):
+            texts = r[5:-1]
         else:
             return None
     body = "\t".join(harness_escape(x) for x in (show(it["fs"]), show(it["args"]), texts))
@@ -573,16 +669,23 @@ def tuplify(t):
     return t
 
 
+NEG_D = re.compile(r"~(\*|[0-9]*[1-9][0-9]*)d")
+NEG_DU = re.compile(r"~(\*|[0-9]*)[DU]")
+
+
 def neg_defect(it):
     """which of the two known defects can show in this item (by its arguments and directives)."""
-    tags = set(it["tags"])
-    items, _ = unroll(it["args"])
-    if not any(x[0] == "int" and x[1] < 0 for x in items) and not any(x[0] == "str" for x in items):
+    items, tail = unroll(it["args"])
+    if not any((x[0] == "int" and x[1] < 0) or x[0] == "str" for x in items):
         return None
+    cs, tl = unroll(it["fs"])
+    if tl != NIL or not all(c[0] == "atom" for c in cs):
+        return None
+    fmt = "".join(c[1] for c in cs).replace("~~", "")
     names = []
-    if tags & {"Nd", "*d"}:
+    if NEG_D.search(fmt):
         names.append("Nd-point-before-sign")
-    if tags & {"D", "ND", "U", "NU", "*D", "*U"}:
+    if NEG_DU.search(fmt):
         names.append("ND-sign-grouped-as-digit")
     return "+".join(names) if names else None
 
@@ -606,6 +709,10 @@ def judge(it, impl, model):
     if mf in ("missing", "bad-term", "bad-op"):
         return "disagreement", fnd("disagreement", {"input": q, "model": mf},
                                    "the model driver could not read the case (texts query: %s)" % impl.get(iid + "_t"))
+    if iv.startswith("{Rzz=") and iv.endswith("}"):
+        nv = normalise(iv[5:-1])
+        if nv is not None:
+            iv = "{R=" + nv + "}"
     if not (iv.startswith(prefix) and iv.endswith(")}")):
         return "disagreement", fnd("disagreement", {"input": q, "impl": iv[:200]},
                                    "the implementation did not echo the format string / arguments this file generated (translation slip, panic or time-out)")
@@ -617,9 +724,13 @@ def judge(it, impl, model):
                                 "ill-typed numeric (`*`) argument did not raise an error")
     if res == mf:
         return "agree", None
-    if res == mp and neg_defect(it):
-        return "known-shape", fnd("violation", {"defect": neg_defect(it), "explained_by_pinned_model": "yes"},
-                                  "~Nd/~ND/~NU of a negative integer: the sign is treated as a digit (output equals the transcription of the pinned library, not the documented text); see notes/findings/C36-1.md, C36-2.md")
+    if res == mp:
+        if mp.startswith("'err'('uninstantiation_error'("):
+            return "known-shape", fnd("violation", {"defect": "write-before-bare-column-stop", "explained_by_pinned_model": "yes"},
+                                      "~w/~q in a cell closed by ~| raises uninstantiation_error instead of printing the term (the goal of ~| runs write_term_to_chars/3 a second time); see notes/findings/C36-3.md")
+        if neg_defect(it):
+            return "known-shape", fnd("violation", {"defect": neg_defect(it), "explained_by_pinned_model": "yes"},
+                                      "~Nd/~ND/~NU of a negative integer: the sign is treated as a digit (output equals the transcription of the pinned library, not the documented text); see notes/findings/C36-1.md, C36-2.md")
     return "violation", fnd("violation", {"input": q, "impl": res[:300], "expected": mf[:300]},
                             "format_//2 output differs from the documented text (model)")
 
